@@ -269,7 +269,7 @@ Section WithSpace.
 
   (** renewAndReload, the worker part of renewDynamicCertificate *)
   (** the name the policy is asked about: the handshake's name, but for a revoked certificate the
-      subject forceRenew is going to renew, Names[0] [fix 7a4c3bf] *)
+      subject forceRenew is going to renew, Names[0] [fix fba364d] *)
   Definition renew_gate_name (n : name) (c : cert) : name := if c_revoked c then name0 c else n.
 
   Definition renew_and_reload (w : world) (n : name) (c : cert) (ok : bool) : list effect * mres * world :=
